@@ -46,6 +46,10 @@ func scenC10(r *Run) {
 		c10WSCloseFrame(r)
 		return
 	}
+	if _, forced := r.Opt["kind"]; (r.Index%16 == 11 && !forced) || r.Opt["mode"] == "fanout-silent" {
+		scenC10Fanout(r)
+		return
+	}
 	kinds := c10Kinds(r)
 	kind := kinds[r.Plan(len(kinds))]
 	mode := r.PlanOf("loss", "loss", "silence")
